@@ -231,7 +231,13 @@ fn check_expr(cx: &Cx, env: &Env, tag: &str, raw: Expr, rng: &mut Rng, case_no: 
             if let (Some(fv), Some(sv)) = (&eng[r], &single.vals[r]) {
                 compared += 1;
                 if !fv.same(sv) {
-                    violate(rep, &format!("batch-vs-single-row/{tag}"), witness_base("full-batch value differs from the value of the same row evaluated as a 1-row batch", r, json!({"batch_value": fv.to_json(), "single_row_value": sv.to_json()})));
+                    // float arithmetic over NaN / inf / zero inputs yields NaN whose SIGN differs between the
+                    // vectorized kernel and the 1-row path; the engine's total order on floats then compares
+                    // -NaN below and +NaN above every number: one root cause, keyed by its own signature
+                    let special = rows[r].iter().any(|v| matches!(v, V::F(f) if f.is_nan() || f.is_infinite() || *f == 0.0));
+                    let arith = [" + ", " - ", " * ", " / ", " % "].iter().any(|o| text.contains(o));
+                    let sig = if special && arith { "batch-vs-single-row/nan-sign-from-float-arithmetic".to_string() } else { format!("batch-vs-single-row/{tag}") };
+                    violate(rep, &sig, witness_base("full-batch value differs from the value of the same row evaluated as a 1-row batch", r, json!({"batch_value": fv.to_json(), "single_row_value": sv.to_json()})));
                     break;
                 }
             }
@@ -267,6 +273,10 @@ fn check_expr(cx: &Cx, env: &Env, tag: &str, raw: Expr, rng: &mut Rng, case_no: 
                     // with bit-wise membership the +-0 difference feeds arithmetic that produces NaN, which the
                     // reference declines to model (sign/payload unspecified): the engine's NaN is that same effect
                     (Err(_), Some(V::F(f))) if f.is_nan() => true,
+                    // the reference evaluates this row under `=` membership but declines under bit-wise
+                    // membership: the two modes took different branches, i.e. a +-0 membership test decides
+                    // the row, and what follows (NaN arithmetic) is outside the reference: not judged
+                    (Err(RErr::Unsup), _) => true,
                     _ => false,
                 }
             };
